@@ -19,6 +19,11 @@ def main():
             self.cs = list(cs)
     jtu.register_pytree_node(Node, lambda n: (n.cs, None), lambda aux, cs: Node(*cs))
 
+    # annotation objects SHARED by all threads (module-level aliases, as in real code): transient check state must not live on them
+    SH_A, SH_ABC, SH_AB, SH_ACC = Float[A, "a"], Float[A, "a b c"], Float[A, "a b"], Float[A, "a c c"]
+    SH_QB, SH_QQ, SH_IA = Float[A, "?b"], Float[A, "?q"], Int[A, "a"]
+    PT_A_T, PT_QB_T, PT_QQ_S, PT_IA = PyTree[SH_A, "T"], PyTree[SH_QB, "T"], PyTree[SH_QQ, "S"], PyTree[SH_IA]
+
     def B():
         s = io.StringIO()
         with contextlib.redirect_stdout(s):
@@ -36,9 +41,9 @@ def main():
     def wl_pytree():
         res = []
         with jaxtyped("context"):
-            res.append(safe(lambda: isinstance((np.zeros(3), Node(np.zeros(3))), PyTree[Float[A, "a"], "T"])))
-            res.append(safe(lambda: isinstance((np.zeros(4), Node(np.zeros(3))), PyTree[Float[A, "?b"], "T"])))
-            res.append(safe(lambda: isinstance(np.zeros(5), Float[A, "a"])))
+            res.append(safe(lambda: isinstance((np.zeros(3), Node(np.zeros(3))), PT_A_T)))
+            res.append(safe(lambda: isinstance((np.zeros(4), Node(np.zeros(3))), PT_QB_T)))
+            res.append(safe(lambda: isinstance(np.zeros(5), SH_A)))
             res.append(B())
         res.append(B())
         return res
@@ -46,13 +51,14 @@ def main():
     def wl_array():
         res = []
         with jaxtyped("context"):
-            res.append(safe(lambda: isinstance(np.zeros((2, 2), dtype=np.int32), Float[A, "a b c"])))   # must be False
-            res.append(safe(lambda: isinstance(np.zeros(7), Float[A, "a"])))
-            res.append(safe(lambda: isinstance(np.zeros(8), Float[A, "a"])))
-            res.append(safe(lambda: isinstance(np.zeros((7, 2)), Float[A, "a b"])))
-            res.append(safe(lambda: isinstance(np.zeros((7, 3)), Float[A, "a c c"])))               # fails after partial progress: rollback
+            res.append(safe(lambda: isinstance(np.zeros((2, 2), dtype=np.int32), SH_ABC)))   # must be False
+            res.append(safe(lambda: isinstance(np.zeros(7), SH_A)))
+            res.append(safe(lambda: isinstance(np.zeros(8), SH_A)))
+            res.append(safe(lambda: isinstance(np.zeros((7, 2)), SH_AB)))
+            res.append(safe(lambda: isinstance(np.zeros((7, 3)), SH_ACC)))               # fails after partial progress: rollback
+            res.append(safe(lambda: (isinstance(np.zeros((7, 7)), SH_A), isinstance(np.zeros(7, dtype=np.int32), SH_A), isinstance(np.zeros(7), SH_IA))))   # wrong rank / dtype: all False
             res.append(B())
-        res.append(safe(lambda: isinstance(np.zeros(3), Float[A, "?q"])))                             # must raise
+        res.append(safe(lambda: isinstance(np.zeros(3), SH_QQ)))                             # must raise
         return res
 
     @jaxtyped(typechecker=typeguard.typechecked)
@@ -71,9 +77,9 @@ def main():
     def wl_question():
         res = []
         with jaxtyped("context"):
-            res.append(safe(lambda: isinstance((np.zeros(3), np.zeros(4)), PyTree[Float[A, "?q"], "S"])))
-            res.append(safe(lambda: isinstance((np.zeros(3), np.zeros(5)), PyTree[Float[A, "?q"], "S"])))
-            res.append(safe(lambda: isinstance({"k": np.zeros(2)}, PyTree[Int[A, "a"]])))
+            res.append(safe(lambda: isinstance((np.zeros(3), np.zeros(4)), PT_QQ_S)))
+            res.append(safe(lambda: isinstance((np.zeros(3), np.zeros(5)), PT_QQ_S)))
+            res.append(safe(lambda: isinstance({"k": np.zeros(2)}, PT_IA)))
             res.append(B())
         return res
 
@@ -108,7 +114,10 @@ def main():
 
         def run(self, fns):
             n = len(fns); out = [None] * n
-            ths = [threading.Thread(target=self.worker, args=(i, f, out)) for i, f in enumerate(fns)]
+            # every thread starts from a COPY of the main thread's contextvars context, taken after the main thread has already
+            # used jaxtyping (the solo runs below): what asyncio.to_thread / copy_context().run do
+            import contextvars
+            ths = [threading.Thread(target=contextvars.copy_context().run, args=(self.worker, i, f, out)) for i, f in enumerate(fns)]
             for t in ths:
                 t.start()
             cur = 0
